@@ -20,7 +20,7 @@ slices=[
  sl("NameSet_hasKey.inc",H,r"bool\s+has\s*\(\s*const\s+DataKey&\s*pkey\s*\)\s*const"),
  sl("NameSet_removeNum.inc",H,r"void\s+remove\s*\(\s*int\s+pnum\s*\)"),
  sl("NameSet_addKey.inc",C,r"void\s+NameSet::add\s*\(\s*DataKey&\s*p_key\s*,\s*const\s+char\*\s*str\s*\)",
-    model_depends_on=[r'spxSnprintf\(tmp, SPX_MAXSTRLEN, "%s", str\)']),
+    model_depends_on=[r'spxSnprintf\(tmp, [^,;]+, "%s", str\)']),
  sl("NameSet_add.inc",C,r"void\s+NameSet::add\s*\(\s*const\s+char\*\s*str\s*\)"),
  sl("NameSet_removeStr.inc",C,r"void\s+NameSet::remove\s*\(\s*const\s+char\*\s*str\s*\)"),
  sl("NameSet_removeKey.inc",C,r"void\s+NameSet::remove\s*\(\s*const\s+DataKey&\s*p_key\s*\)"),
@@ -50,7 +50,7 @@ u={
   "NameSetHost replicates NameSet's data members (conformance-checked); every NameSet member-function body is the real one; classes Name (strcmp-based operator==) and DataKey are the real class texts; strlen / strcmp are straight-line models exact for strings shorter than 2 characters (a longer string is a failed obligation)",
   "DataSet<int> is replaced by a straight-line MODEL of the contracts proved in unit dataset (create: a cell no live key names gets the next number; remove(key): the last element moves into the gap, size() may shrink; number/has/key/operator[]; reMax keeps everything [unit dataset_copy]); each documented precondition (num() < max(), valid key / number) is an obligation at the call",
   "DataHashTable<Name, DataKey> is replaced by a straight-line MODEL of the contracts proved in unit datahashtable (a finite map: has/get find the unique entry whose key compares equal; add(h, info) requires !has(h) - an obligation at the call - and takes an entry that was not in use; remove releases the entry; all other entries untouched; growth keeps the content - DataHashTable::reMax itself is not under contract)",
-  "spxSnprintf(t, len, \"%s\", s) is a bounded copy loop with forced termination (model of vsnprintf \"%s\" + spxSnprintf's truncation branch; the slice must contain exactly this call)",
+  "spxSnprintf(t, len, \"%s\", s) is a bounded copy loop with forced termination (model of vsnprintf \"%s\" + spxSnprintf's truncation branch; the stub honours len; the model is only valid for the format \"%s\", which the slice must contain)",
   "scope: at most CAP = 4 cells / hash entries, names of at most 1 character (257 different names), arena of exactly 8 bytes; NS is supplied at every cell by explicit conjunction (stubs/rep.h); string loops unwound completely: exhaustive up to these caps, not inductive",
   "add(): proved for max() <= CAP and size() < CAP (room in the model arrays) and when the arena has room (memSize() + strlen(str) < memMax()): memPack / memRemax are not under contract; the growth of the key set (NameSet::reMax) is on the proved path",
   "ghost entry map ent[] and ghost number g_x are specification-only; assert() compiled out (NDEBUG semantics)",
